@@ -34,3 +34,67 @@ fn rac_mask_push() {
     }
     println!("RAC-OK mask_push cases={} nontrivial={} bound=<=5-ordered-spans-over-7-positions", cases, nontrivial);
 }
+
+// Runtime contract check of Mask::merge_whitespace_sep: for every source of 7 characters over {'a', ' ', '\n', '\t'}
+// restricted to 40 patterns and every ordered list of up to 4 disjoint spans over it: the call returns (no panic,
+// no endless recursion), the allowed list stays well formed, sorted, disjoint and inside the text, nothing that was
+// allowed is lost, and every character gained is white space lying between two formerly allowed spans.
+#[test]
+fn rac_mask_merge() {
+    fn rec(seq: &mut Vec<(usize, usize)>, from: usize, out: &mut Vec<Vec<(usize, usize)>>) {
+        out.push(seq.clone());
+        if seq.len() == 4 { return; }
+        for s in from..=7 { for e in s..=7 { seq.push((s, e)); rec(seq, e, out); seq.pop(); } }
+    }
+    let mut all = vec![];
+    rec(&mut vec![], 0, &mut all);
+    let alphabet = ['a', ' ', '\n', '\t'];
+    let mut sources: Vec<Vec<char>> = vec![];
+    let mut x: u64 = 0x9e3779b97f4a7c15;
+    for _ in 0..40 {
+        let mut v = vec![];
+        for _ in 0..7 { x ^= x << 13; x ^= x >> 7; x ^= x << 17; v.push(alphabet[(x % 4) as usize]); }
+        sources.push(v);
+    }
+    sources.push("a a a a".chars().collect());
+    sources.push("a  \n  a".chars().collect());
+    let (tx, rx) = std::sync::mpsc::channel::<Result<(u64, u64), String>>();
+    std::thread::spawn(move || {
+        let mut cases = 0u64;
+        let mut nontrivial = 0u64;
+        for src in &sources {
+            for seq in &all {
+                let mut mask = Mask::new_blank();
+                for (s, e) in seq { mask.push_allowed(Span::new(*s, *e)); }
+                let before: Vec<Span> = mask.allowed.clone();
+                let r = std::panic::catch_unwind(std::panic::AssertUnwindSafe(|| { mask.merge_whitespace_sep(src); }));
+                cases += 1;
+                let mut bad: Option<String> = None;
+                if r.is_err() { bad = Some("panicked".to_string()); } else {
+                    for w in mask.allowed.windows(2) { if w[0].end > w[1].start { bad = Some("allowed spans overlap or are out of order".to_string()); } }
+                    for a in &mask.allowed { if a.start > a.end || a.end > src.len() { bad = Some("malformed span or span outside the text".to_string()); } }
+                    for c in 0..src.len() {
+                        let was = before.iter().any(|a| a.start <= c && c < a.end);
+                        let is = mask.allowed.iter().any(|a| a.start <= c && c < a.end);
+                        if was && !is { bad = Some(format!("character {} was allowed and is not any more", c)); }
+                        if !was && is {
+                            let between = before.iter().any(|a| a.end <= c) && before.iter().any(|a| a.start > c);
+                            if !src[c].is_whitespace() || !between { bad = Some(format!("character {} ({:?}) became allowed although it is not white space between two allowed spans", c, src[c])); }
+                        }
+                    }
+                    if mask.allowed.len() < before.len() { nontrivial += 1; }
+                }
+                if let Some(why) = bad {
+                    let _ = tx.send(Err(format!("{{\"source\": {:?}, \"allowed\": {:?}, \"result\": {:?}, \"why\": {:?}}}", src.iter().collect::<String>(), seq, mask.allowed.iter().map(|a| (a.start, a.end)).collect::<Vec<_>>(), why)));
+                    return;
+                }
+            }
+        }
+        let _ = tx.send(Ok((cases, nontrivial)));
+    });
+    match rx.recv_timeout(std::time::Duration::from_secs(200)) {
+        Ok(Ok((cases, nontrivial))) => println!("RAC-OK mask_merge cases={} nontrivial={} bound=42-sources-of-7-chars-x-<=4-ordered-spans", cases, nontrivial),
+        Ok(Err(cex)) => { println!("RAC-CEX mask_merge {}", cex); panic!("Mask::merge_whitespace_sep contract violated"); }
+        Err(_) => { println!("RAC-CEX mask_merge {{\"why\": \"did not terminate within 200 s\"}}"); panic!("Mask::merge_whitespace_sep hangs"); }
+    }
+}
